@@ -1009,6 +1009,7 @@ func init() {
 			c.ConstIndexGuarded("C13") // no contribution makes an instance crash
 			c.ParticipantsAsSent("C13")
 			c.AlignedLists("C13")
+			c.IdentifierPure("C16")
 		},
 		Explanation: "A received share or verification vector enters the session only below the contribution check applied to that very share and vector, this instance's id and the session threshold; the check accepts only vectors of exactly threshold entries (so the aggregate, sized by the threshold, is never indexed out of range); the account is written only by commit, below one share and one vector per listed participant; the initiator starts commit messages only past the nil-error edge of every prepare and execute; undecodable contributions return before the process service. See DESIGN.md §5 C13.",
 		Trusted:     append([]string{"herumi BLS share/vector consistency check", "partial failure during the commit phase is outside the statement"}, commonTrusted...),
@@ -1024,6 +1025,7 @@ func init() {
 			c.ImmutableSliceConfig("C12.O4 usable-at-once/config-bytes", pkgProcess, "process service")
 			c.ParticipantsAsSent("C12") // every participant records the participant list the initiator sent
 			c.ParticipantCount("C12")
+			c.IdentifierPure("C16")
 		},
 		Explanation: "Claimed clauses only: a generation starts only below [n != 0], [t <= n] and [n/2 < t]; the threshold checked is the one sent in prepare, recorded in the session (never changed) and stored with the account; distributed generation reports success only past error-free, non-empty commit replies, pairwise key equality over all participants and a successful recover+verify of every window of t confirmation signatures against the returned key; every created account is added to the in-memory cache, whose lookups and listing consult the overlay. See DESIGN.md §5 C12.",
 		Trusted:     append([]string{"Shamir/BLS mathematics inside herumi (share consistency, threshold recovery) is not decided"}, commonTrusted...),
